@@ -1,6 +1,14 @@
 os_mk=__import__('os').makedirs('/var/tmp/w2sens',exist_ok=True)
 import sys,os,subprocess,shutil,json,time
 muts={
+ 'K5-network-ipam-section-wins-over-ipinfos':('cni/ipam/ipam.go','	if ipInfoStr := kvMap[constant.IPInfosKey]; ipInfoStr != "" {','	if ipInfoStr := kvMap[constant.IPInfosKey]; ipInfoStr != "" && ipamType == "" {'),
+ 'K6-common-args-only-with-first-network-and-not-accumulated':[('pkg/galaxy/server.go',"			networkInfos[i].Args[k] = string(v)","			networkInfos[i].Args[k] = string(v)\n			if i > 0 {\n				delete(networkInfos[i].Args, k)\n			}"),('pkg/api/cniutil/cni.go','''	for idx, networkInfo := range networkInfos {
+		//append additional args from network info
+		cmdArgs.Args = strings.TrimRight(fmt.Sprintf("%s;%s", cmdArgs.Args, BuildCNIArgs(networkInfo.Args)), ";")''','''	kubeletArgs := cmdArgs.Args
+	for idx, networkInfo := range networkInfos {
+		//append additional args from network info
+		cmdArgs.Args = strings.TrimRight(fmt.Sprintf("%s;%s", kubeletArgs, BuildCNIArgs(networkInfo.Args)), ";")''')],
+
  'K1-decoder-drops-vlan':('cni/ipam/ipam.go','vlanIDs = append(vlanIDs, ipInfos[j].Vlan)','vlanIDs = append(vlanIDs, 0)'),
  'K2-address-masked-on-decode':('pkg/utils/nets/ip.go','	netIPNet.IP = ip\n','	_ = ip\n'),
  'K3-mask-truncated-to-24':('pkg/api/cniutil/cni.go','IP:      net.IPNet(*ipInfo.IP),','IP:      net.IPNet{IP: ipInfo.IP.IP, Mask: net.CIDRMask(24, 32)},'),
@@ -9,11 +17,13 @@ muts={
 env=dict(os.environ,GOFLAGS='-mod=mod',GOPROXY='off',GOSUMDB='off',GOTOOLCHAIN='local')
 os.makedirs('/var/tmp/w2sens',exist_ok=True)
 for name in sys.argv[1:] or sorted(muts):
-    f,old,new=muts[name]
+    edits=muts[name]
+    if isinstance(edits,tuple): edits=[edits]
     d='/var/tmp/w2sens/repo'
     shutil.rmtree(d,ignore_errors=True)
     subprocess.check_call(['rsync','-a','--exclude','.git','/repo/',d+'/'])
-    p=os.path.join(d,f); s=open(p).read(); assert s.count(old)==1,(name,); open(p,'w').write(s.replace(old,new))
+    for f,old,new in edits:
+        p=os.path.join(d,f); s=open(p).read(); assert s.count(old)==1,(name,f); open(p,'w').write(s.replace(old,new))
     r=subprocess.run(['/verif/scripts/build.sh','c13'],env=dict(env,VERIF_REPO=d),capture_output=True,text=True)
     if r.returncode!=0: print(name,'BUILD FAILED',r.stderr[-1200:]); continue
     b=r.stdout.strip(); out='/var/tmp/w2sens/%s.json'%name
